@@ -33,10 +33,18 @@ class HippoLLSDXMLFormatter(base_llsd.serde_xml.LLSDXMLFormatter, HippoLLSDBaseF
     def __init__(self):
         super().__init__()
 
+    def xml_esc(self, v):
+        # XML parsers normalize a literal CR (or CRLF) to LF, only a character reference survives
+        return super().xml_esc(v).replace(b"\r", b"&#13;")
+
 
 class HippoLLSDXMLPrettyFormatter(base_llsd.serde_xml.LLSDXMLPrettyFormatter, HippoLLSDBaseFormatter):
     def __init__(self):
         super().__init__()
+
+    def xml_esc(self, v):
+        # See HippoLLSDXMLFormatter.xml_esc()
+        return super().xml_esc(v).replace(b"\r", b"&#13;")
 
 
 def format_pretty_xml(val: typing.Any) -> bytes:
